@@ -172,3 +172,30 @@ func VIntersectDecide(ct ClipType, fr FillRule, e1, e2 VEdge, hot1, hot2, front1
 	c.intersectEdges(a1, a2, Point64{})
 	return a1.windCount, a1.windCount2, a2.windCount, a2.windCount2, a1.outrec != nil, a2.outrec != nil, len(c.outrecList) - before, c.succeeded
 }
+
+// VVertexRing runs the real addPathsToVertexList on one path and returns the vertex ring it built
+// (points and flags, starting at the first vertex) and the ring indices of the recorded local
+// minima in recording order; ok is false when the path was skipped.
+func VVertexRing(path Path64, isOpen bool) (pts Path64, flags []int, minima []int, ok bool) {
+	var ml []*LocalMinima
+	var vl VertexPoolList
+	addPathsToVertexList(Paths64{path}, Subject, isOpen, &ml, &vl)
+	if len(vl) == 0 || vl[0].prev == nil || (!isOpen && len(ml) == 0) {
+		return nil, nil, nil, false
+	}
+	idx := map[*Vertex]int{}
+	v := vl[0]
+	for {
+		idx[v] = len(pts)
+		pts = append(pts, v.pt)
+		flags = append(flags, int(v.flags))
+		v = v.next
+		if v == vl[0] || v == nil {
+			break
+		}
+	}
+	for _, m := range ml {
+		minima = append(minima, idx[m.Vertex])
+	}
+	return pts, flags, minima, true
+}
